@@ -129,6 +129,7 @@ pub enum RuleSyntaxError {
     WordBoundLoc         (Position),
     OptLocError          (Position),
     EmptySet             (Position),
+    NumberTooBig         (Position),
     UnknownEnbyFeature(String, Position),
     UnknownFeature    (String, Position),
     DiacriticDoesNotMeetPreReqsFeat(Position, Position, String, bool),
@@ -188,6 +189,7 @@ impl ASCAError for RuleSyntaxError {
             Self::WordBoundLoc         (_) => "Wordboundaries are not allowed in the input or output".to_string(),
             Self::OptLocError          (_) => "Optionals can only be used in environments".to_string(),
             Self::EmptySet             (_) => "Sets cannot be empty".to_string(),
+            Self::NumberTooBig         (_) => "Number is too large".to_string(),
             Self::UnknownEnbyFeature(feat, pos) => format!("Feature '{feat}' has no modifier at {}:{}-{}'.", pos.line, pos.start, pos.end),
             Self::UnknownFeature    (feat, pos) => format!("Unknown feature '{feat}' at {}:{}-{}'. Did you mean {}? ", pos.line, pos.start, pos.end, get_feat_closest(feat)),
             Self::DiacriticDoesNotMeetPreReqsFeat(.., t , pos) |
@@ -281,6 +283,7 @@ impl ASCAError for RuleSyntaxError {
             },
             Self::WordBoundLoc(pos) |
             Self::OptLocError (pos) |
+            Self::NumberTooBig(pos) |
             Self::EmptySet    (pos) => (
                 " ".repeat(pos.start) + &"^".repeat(pos.end-pos.start) + "\n",
                 pos.group,
